@@ -221,26 +221,35 @@ theorem fr_setRawEndDataEnd (z : Z) (a b : Nat) : fr { z with rawEnd := a, dataE
   repeat' split
   all_goals grind
 
+@[simp, grind =] theorem fr_dispatch (k c : Nat) (z : Z) : fr (dispatch k c z).2 = fr z := by
+  unfold dispatch
+  repeat' split
+  all_goals first | grind | rfl
+
 @[simp, grind =] theorem fr_mainLoop (f : Nat) (z : Z) : fr (mainLoop f z).2 = fr z := by
   induction f generalizing z with
   | zero => rfl
   | succ f ih =>
-    have hr : fr (readByte z).2 = fr z := by simp
-    have hrr : fr (readByte (readByte z).2).2 = fr z := by simp
     simp only [mainLoop]
     repeat' split
-    all_goals first | grind | (simp only [fr, Prod.mk.injEq] at hr hrr ⊢; simp_all)
+    all_goals grind
+
+@[simp, grind =] theorem fr_rawTextAttempt (z : Z) : fr (rawTextAttempt z) = fr z := by
+  unfold rawTextAttempt
+  split
+  · show fr (plaintextLoop _ z) = fr z; simp
+  · simp
 
 /-- `Next` starts the new token exactly where the previous one ended and leaves
 the input and configuration alone. -/
 theorem next_frame (z : Z) :
     (next z).2.rawStart = z.rawEnd ∧ (next z).2.inp = z.inp ∧ (next z).2.maxBuf = z.maxBuf := by
-  have key : fr (next z).2 = fr { z with rawStart := z.rawEnd, dataStart := z.rawEnd, dataEnd := z.rawEnd } := by
+  have key : fr (next z).2 = fr (startToken z) := by
     unfold next
     simp only []
     repeat' split
-    all_goals grind [fr_setDataEnd, fr_setRawTag]
-  simp only [fr, Prod.mk.injEq] at key
+    all_goals grind
+  simp only [fr, startToken, Prod.mk.injEq] at key
   exact ⟨key.1, key.2.1, key.2.2.1⟩
 
 end NetVerif.Proofs.Lemmas.HtmlTokExact
